@@ -18,9 +18,6 @@ ASSUME = [
     'all-success jobs',
 ]
 
-# restart timeout 0: a restarted *completed* workflow shuts down again at
-# once instead of idling for the (virtual) two minutes of the default
-EVENTS = {'restart timeout': 'PT0S'}
 
 
 def catalogue(tier: str):
@@ -60,7 +57,7 @@ def catalogue(tier: str):
         ]
     specs = []
     for name, secs, fcp, extra, gf in rows:
-        s = spec_from(secs, 1, fcp, name=name, events=dict(EVENTS), **extra)
+        s = spec_from(secs, 1, fcp, name=name, **extra)
         s['graph_faithful'] = gf
         specs.append(s)
     return specs
